@@ -31,7 +31,8 @@ META = {
             "differences; one and two call sites; call sites inside a for-loop with durations that are scalar, the loop index, or indexed "
             "arrays, with and without other uses of the variables in the loop body; options default / replace_constant_values / "
             "replace_parameter_values / expand_vectors / detect_aliases with an alias pair in durations and expressions / cache=True with the "
-            "request repeated) that the symbol-based pipeline rejects exactly the models the category-based "
+            "request repeated / durations that are the result of another delay, nested or through an eliminated alias / delayed 2x3 matrix "
+            "expressions with and without expand_vectors) that the symbol-based pipeline rejects exactly the models the category-based "
             "property rejects and that the delay arguments equal the values of expression and duration.  Each program is compiled by "
             "transfer_model(cache=False): ValueError iff rejected, otherwise delay_arguments_function is evaluated at 2 integer points "
             "and compared element by element.",
@@ -42,7 +43,7 @@ META = {
     "design_ref": "DESIGN.md section 6, C22",
 }
 
-CLASS_TAGS = {"outside", "two", "loop", "mixed", "alias", "opt-aliases", "opt-cache", "accept", "reject", "in-loop", "outside-loop", "loop-indexed-duration",
+CLASS_TAGS = {"outside", "two", "loop", "mixed", "alias", "chain", "matrix", "matrix-delay", "opt-aliases", "opt-cache", "accept", "reject", "in-loop", "outside-loop", "loop-indexed-duration",
               "loop-expr-free-var", "paramvals-in-delay", "opt-default", "opt-constvals", "opt-paramvals", "opt-expand"}
 OPTS = {"default": {}, "constvals": {"replace_constant_values": True}, "paramvals": {"replace_parameter_values": True},
         "expand": {"expand_vectors": True}, "aliases": {"detect_aliases": True}, "cache": {"cache": True}}
@@ -54,6 +55,10 @@ def rexpr(e):
         return e["n"]
     if k == "iref":
         return "%s[i]" % e["n"]
+    if k == "mref":
+        return e["n"]
+    if k == "delay":
+        return "delay(%s, %s)" % (rexpr(e["a"][0]), rexpr(e["a"][1]))
     if k == "idx":
         return "i"
     if k == "lit":
@@ -75,7 +80,10 @@ def render(prog):
     used = set()
     for s in prog["sites"]:
         call = "delay(%s, %s)" % (rexpr(s["expr"]), rexpr(s["dur"]))
-        if s["loop"]:
+        if s.get("mat"):
+            eqs.append("  ym = %s;" % call)
+            used.add("ym")
+        elif s["loop"]:
             body = ["    zs[i] = (p * x);"] if s["body"] else []
             body.append("    ys[i] = %s;" % call)
             eqs.append("  for i in 1:2 loop\n%s\n  end for;" % "\n".join(body))
@@ -95,13 +103,17 @@ def render(prog):
     # the array parameter is declared only when used (load_model of a cached model with an array parameter fails in
     # variable_metadata - model-cache territory, C19 - and would hide what this check is about)
     uses_ps = '"ps"' in json.dumps(prog)
+    mat = any(s.get("mat") for s in prog["sites"])
+    if mat:
+        eqs = eqs + ["  xm[1, 1] = x;", "  xm[1, 2] = a;", "  xm[1, 3] = 1;", "  xm[2, 1] = 2;", "  xm[2, 2] = (x + 1);", "  xm[2, 3] = (a + 1);"]
     return ("model M\n  constant Real c = 2;\n  parameter Real p = 3;\n" + ("  parameter Real ps[2] = {1, 2};\n" if uses_ps else "") +
             "  input Real uf(fixed = true);\n  input Real u;\n  Real x;\n  Real a;\n  Real y;\n  Real z;\n"
-            "  Real xs[2];\n  Real ys[2];\n  Real zs[2];\n  Real b1;\n  Real b2;\nequation\n%s\nend M;\n" % "\n".join(eqs))
+            "  Real xs[2];\n  Real ys[2];\n  Real zs[2];\n  Real b1;\n  Real b2;\n" + ("  Real xm[2, 3];\n  Real ym[2, 3];\n" if mat else "") + "equation\n%s\nend M;\n" % "\n".join(eqs))
 
 
-def value_for(name, n, pt):
-    """values (list of n numbers) of the model variable `name` at the spec's point"""
+def value_for(name, n, pt, shape=None):
+    """values (list of n numbers, in the storage order of the symbol) of the model variable `name` at the spec's point;
+    shape = (rows, columns) of the symbol"""
     if name.startswith("_pymoca_delay"):
         return [0.0] * n
     if name == "der(x)":
@@ -113,11 +125,39 @@ def value_for(name, n, pt):
     vals = pt["decl"].get(base, pt["val"].get(base))
     if vals is None:
         raise MachineryError("no value for model variable %s" % name)
+    mshape = pt.get("shape", {}).get(base)            # matrices: the point lists the values row by row
     if idx is not None:
+        if mshape and len(idx) == 2:
+            return [float(vals[(idx[0] - 1) * mshape[1] + (idx[1] - 1)])]
         return [float(vals[idx[0] - 1])]
     if len(vals) != n:
         raise MachineryError("size of %s is %d, point has %d values" % (name, n, len(vals)))
+    if mshape and shape and tuple(shape) == tuple(mshape):
+        # a CasADi matrix symbol is stored column by column
+        return [float(vals[i * mshape[1] + j]) for j in range(mshape[1]) for i in range(mshape[0])]
     return [float(v) for v in vals]
+
+
+def delay_key(name):
+    """'_pymoca_delay_3[2,1]' -> (3, (2, 1));  '_pymoca_delay_3' -> (3, None)"""
+    base, idx = name, None
+    if "[" in name:
+        base = name[:name.index("[")]
+        idx = tuple(int(t) for t in name[name.index("[") + 1:-1].split(","))
+        if len(idx) == 1:
+            idx = (idx[0], 1)
+    if not base.startswith("_pymoca_delay_"):
+        raise MachineryError("unexpected delay state name %s" % name)
+    return int(base[len("_pymoca_delay_"):]), idx
+
+
+def elements(dm, ca):
+    """dense DM -> {(row, column): value}, 1-based; a row vector is read as a column vector"""
+    dm = ca.densify(ca.DM(dm))
+    r, c = dm.size1(), dm.size2()
+    if r == 1 and c > 1:
+        dm, r, c = dm.T, c, 1
+    return {(i + 1, j + 1): float(dm[i, j]) for i in range(r) for j in range(c)}
 
 
 def request(folder, opts, item):
@@ -135,14 +175,15 @@ def request(folder, opts, item):
     try:
         f = model.delay_arguments_function
         lists = [model.states, model.der_states, model.alg_states, model.inputs, model.constants, model.parameters]
-        sizes = [[(v.symbol.name(), v.symbol.size1() * v.symbol.size2()) for v in L] for L in lists]
+        sizes = [[(v.symbol.name(), v.symbol.size1() * v.symbol.size2(), (v.symbol.size1(), v.symbol.size2())) for v in L] for L in lists]
+        names = list(model.delay_states)
         res = []
         for pt in item["points"]:
             args = [float(pt["time"])]
             for L in sizes:
                 vec = []
-                for name, n in L:
-                    vec += value_for(name, n, pt)
+                for name, n, shp in L:
+                    vec += value_for(name, n, pt, shp)
                 args.append(ca.DM(vec) if vec else ca.DM.zeros(0, 1))
             outs = f(*args)
             if not isinstance(outs, (list, tuple)):
@@ -150,16 +191,26 @@ def request(folder, opts, item):
             if len(outs) % 2:
                 obs["function"] = "odd number of outputs"
                 return obs
+            if len(outs) != 2 * len(names):
+                obs["function"] = "%d outputs for %d delay states" % (len(outs), len(names))
+                return obs
             pairs = []
-            for k in range(0, len(outs), 2):
-                ex = [float(x) for x in ca.densify(ca.DM(outs[k])).nonzeros()]
-                du = [float(x) for x in ca.densify(ca.DM(outs[k + 1])).nonzeros()]
+            for k, name in enumerate(names):
+                num, idx = delay_key(str(name))
+                ex = elements(outs[2 * k], ca)
+                du = elements(outs[2 * k + 1], ca)
                 if len(du) == 1:
-                    du = du * len(ex)
-                if len(du) != len(ex):
-                    obs["function"] = "expression with %d elements, duration with %d" % (len(ex), len(du))
+                    du = {key: list(du.values())[0] for key in ex}
+                if set(du) != set(ex):
+                    obs["function"] = "expression with elements %s, duration with %s" % (sorted(ex), sorted(du))
                     return obs
-                pairs += [[a, b] for a, b in zip(ex, du)]
+                for key in sorted(ex):
+                    if idx is not None and key != (1, 1):
+                        obs["function"] = "element name %s carries a non-scalar expression" % name
+                        return obs
+                    rc = idx if idx is not None else key
+                    pairs.append([[num, rc[0], rc[1]], ex[key], du[key]])
+            pairs.sort()
             res.append(pairs)
         obs["function"] = "built"
         obs["args"] = res
@@ -202,6 +253,11 @@ def rat(q):
     return None if q == [0, 0] else q[0] / q[1]
 
 
+def triples(args):
+    """spec entries <<key, expression, duration>> per point -> sorted [[n, row, col], float, float]"""
+    return [sorted([list(t[0]), rat(t[1]), rat(t[2])] for t in pt) for pt in args]
+
+
 def judge(item, obs):
     recs, drift, compared = judge_request(item, obs, obs["text"], "")
     if "second" in obs:
@@ -226,8 +282,7 @@ def judge_request(item, obs, text, prefix):
     if ab_same and obs["verdict"] == "accept":
         ab_same = (obs["function"] == "built") == (ab["function"] == "built")
         if ab_same and obs["function"] == "built":
-            want = [[[rat(p[0]), rat(p[1])] for p in pt] for pt in ab["args"]]
-            ab_same = want == obs["args"]
+            ab_same = triples(ab["args"]) == obs["args"]
     if not ab_same:
         drift.append("as-built model differs from the code")
 
@@ -238,7 +293,7 @@ def judge_request(item, obs, text, prefix):
     if exp["reject"]:
         if obs["verdict"] == "accept":
             rec("verdict", "transfer_model accepted a model whose delay duration depends on %s" % sorted(
-                t[4:] for t in item["tags"] if t.startswith("dur:") and t[4:] in ("time", "state", "derivative", "algebraic", "input")))
+                t[4:] for t in item["tags"] if t.startswith("dur:") and t[4:] in ("time", "state", "derivative", "algebraic", "input", "delayed value")))
         elif obs["verdict"] == "raised":
             drift.append("rejected model: exception other than the ValueError of the duration check")
         return recs, drift, compared
@@ -251,9 +306,9 @@ def judge_request(item, obs, text, prefix):
         rec("delay-arguments", "delay_arguments_function of an accepted model: %s" % (obs.get("fexc", {}).get("detail") or obs["function"]),
             obs.get("fexc", {}).get("exception_type"))
         return recs, drift, compared
-    want = [[[rat(p[0]), rat(p[1])] for p in pt] for pt in exp["args"]]
+    want = triples(exp["args"])
     if want != obs["args"]:
-        rec("delay-arguments", "delay_arguments_function returns (expression, duration) pairs %s, the model's are %s" % (
+        rec("delay-arguments", "delay_arguments_function returns [delay number, row, column], expression, duration = %s, the model's are %s" % (
             json.dumps(obs["args"]), json.dumps(want)))
     return recs, drift, compared
 
@@ -287,7 +342,8 @@ def run(ctx):
     # as-built deviations of the for-loop handling (still in the code), the repaired replace_parameter_values deviation, and
     # two variants the code does NOT have (save before check, aliases not reaching durations): TLC must refute each
     sws = (("asbuilt_ownfree", "RejectsExactly"), ("asbuilt_durmap", "NoPlaceholderLeft"), ("asbuilt_pvals", "ArgumentsPreserved"),
-           ("variant_savefirst", "CacheHoldsOnlyAccepted"), ("variant_aliasdur", "RejectsExactly"))
+           ("variant_savefirst", "CacheHoldsOnlyAccepted"), ("variant_aliasdur", "RejectsExactly"),
+           ("variant_delayinputs", "RejectsExactly"), ("variant_expandorder", "ArgumentsPreserved"))
     with ThreadPoolExecutor(4) as ex:
         main = ex.submit(tlc.run, "Delay", "Delay_thorough.cfg" if thorough else "Delay_quick.cfg", workers=1, timeout=1500)
         futs = [(sw, inv, ex.submit(tlc.run, "Delay", "Delay_%s.cfg" % sw, workers=1)) for sw, inv in sws]
@@ -323,7 +379,7 @@ def run(ctx):
             ctx.sample({"modelica": out["obs"]["text"], "expected_pairs": it["expect"]["args"], "observed_pairs": out["obs"]["args"]}, limit=2)
         if not out["recs"] and it["expect"]["reject"]:
             ctx.sample({"modelica": out["obs"]["text"], "expected": "reject", "observed": out["obs"]["exc"]["detail"]}, limit=4)
-    need = ["outside", "loop", "mixed", "alias", "opt-aliases", "opt-cache", "accept", "reject", "loop-indexed-duration", "loop-expr-free-var", "paramvals-in-delay",
+    need = ["outside", "loop", "mixed", "alias", "chain", "matrix-delay", "dur:delayed value", "opt-aliases", "opt-cache", "accept", "reject", "loop-indexed-duration", "loop-expr-free-var", "paramvals-in-delay",
             "opt-default", "opt-constvals", "opt-paramvals", "opt-expand"] + ["dur:" + c for c in (
                 "constant", "parameter", "fixed input", "input", "state", "derivative", "algebraic", "time")]
     for t in need:
@@ -338,7 +394,7 @@ def run(ctx):
     caught = 0
     for it in good_acc:
         b = json.loads(json.dumps(it))
-        b["expect"]["args"][0][0][1] = [b["expect"]["args"][0][0][1][0] + 1, 1]       # duration off by one
+        b["expect"]["args"][0][0][2] = [b["expect"]["args"][0][0][2][0] + 1, 1]       # duration off by one
         b2 = json.loads(json.dumps(it))
         b2["expect"]["reject"] = True
         if any(r["observable"] == "delay-arguments" for r in work(b)["recs"]) and any(r["observable"] == "verdict" for r in work(b2)["recs"]):
